@@ -278,7 +278,8 @@ class n0xml:
             if not sought_xpath_parts:
                 if find_first and not first_found:
                     first_found = passed_xpath_parts
-                return [(passed_xpath_parts, ordered_items)]
+                # matches already collected by deeper '**' dives before a '..' step was resolved here are kept
+                return found + [(passed_xpath_parts, ordered_items)]
 
             raise RuntimeError("Unexpected exit during xpath traversal")
 
